@@ -382,7 +382,6 @@ def mk_observation(fname, H, W, vshape):
             sx.check(ob.grid.shape == vshape, 'observation-shape')
             # asking for its observation leaves the state a member of the state space (it can be stepped afterwards)
             state_member_touched(sx, H, W, types, set(colors), state, 'state-after-its-observation')
-            sx.check(not state.grid.objects.writes, 'observation-writes-nothing-into-the-state', repr(state.grid.objects.writes))
         finally:
             reset_gv_debug(False)
     return h
